@@ -5,6 +5,12 @@ import os
 
 V = os.path.dirname(os.path.dirname(os.path.abspath(__file__)))
 CHECKS = {
+    'C01': ('strict reference decoder over everything handed to write_n, multiset/order equality with the reference encoding of every accepted call, capacity bound; sequential (debug), every capacity 0..255 (normal mode) and concurrent senders with auto-flush under asan+tsan',
+            'reference codec (bitwise CRC) and spec table in vlib/; simulated bus answers every request; gcc ASan/UBSan/TSan',
+            'runtime monitoring: reference-decoder oracle over recorded wire bytes + ASan/UBSan/TSan'),
+    'C05': ('per-node sequence-number oracle over the decoded wire under 2-16 sender threads, budget deferral released by the receiver thread, 255->1 wrap, lock-level perturbation, asan+tsan',
+            'reference decoder; perturbation at every lock operation via link-time wrappers; schedules are sampled, not enumerated',
+            'runtime monitoring: ordering oracle over recorded wire history under stress + TSan'),
     'C18': ('boundary sweep of every public bidib_send_* function against an independent spec table (header docs + bidib_messages.h): decoded wire after each call, ASan/UBSan on exact-size argument buffers',
             'spec table vlib/spec_lowlevel.py; gcc ASan/UBSan red zones (512 B); reference decoder; low-level debug mode session',
             'runtime monitoring: spec-table oracle over decoded wire + ASan/UBSan'),
